@@ -3,17 +3,21 @@
 // Runs a REAL graph compiled from the working tree, in simulation:
 //     map    : replay(TSD<Int,TS<Int>> "a")                -> map_(probes, a)            -> record
 //     switch : replay(TS<Int> "k"), replay(TS<Int> "x")    -> switch_({default: probes}, k, x) -> record
+//     reduce : replay(TSD<Int,TS<Int>> "a")                -> reduce(combiner, a)         -> record   (no zero)
+//              combiner = the NODE rprobe0(lhs, rhs) for n = 1, the sub-graph rprobe0(lhs, rhs) -> rprobe1 -> rprobe2 otherwise;
+//              a combiner graph instance is named <ordinal>#1 (ordinal = order of its start attempt in the run), so
+//              `fe <ordinal> <i> <n>` / `fx <ordinal> <i>` address the combiner instances
 // where `probes(key, ts)` is a child graph of 1..3 instrumented probe nodes in a chain
 // (probe0(key, ts) -> probe1(key, .) -> probe2(key, .)) whose start / eval / stop hooks log and can throw.
 // One output line per input line.
 //
 //   case <id>                     -> "case <id>"   (flushes a pending history first)
-//   cfg <map|switch> <n> <c>      -> "ok" | "bad-op"    n = probes per child (1..3), c = cleanup_on_error (0|1)
+//   cfg <map|switch|reduce> <n> <c> -> "ok" | "bad-op"    n = probes per child (1..3), c = cleanup_on_error (0|1)
 //   fs <k>                        -> "ok"   the k-th probe start hook entered in this run throws (1-based, global count)
 //   fe <key> <i> <n>              -> "ok"   the n-th evaluation of probe i of the children of <key> throws (counted over generations)
 //   fx <key> <i>                  -> "ok"   every stop hook of probe i of the children of <key> throws
 //   c <op>*                       one engine cycle (MIN_ST + index), answered when the run happens
-//        map    ops: +k (key k present with a new value: add, or tick when present)  -k (remove; ignored when absent)
+//        map / reduce ops: +k (key k present with a new value: add, or tick when present)  -k (remove; ignored when absent)
 //                    a key both removed and added in one cycle -> bad-op
 //        switch ops: =k (the key input ticks k; x ticks too)   ~ (x ticks)
 //        answer: the lifecycle events of that cycle (space separated) | "-" (nothing happened) | "dead" (after the failure)
@@ -37,6 +41,7 @@
 #include <hgraph/lib/testing/record_replay.h>
 #include <hgraph/runtime/lifecycle_observer.h>
 #include <hgraph/runtime/map_node.h>
+#include <hgraph/runtime/reduce_node.h>
 #include <hgraph/runtime/switch_node.h>
 #include <hgraph/runtime/runtime.h>
 #include <hgraph/types/graph_wiring.h>
@@ -80,6 +85,7 @@ namespace
         std::map<const void *, int>  inst_of;       // child graph memory -> latest instance
         std::map<Int, int>           gens;          // key -> generations seen
         int                          start_calls{0};
+        int                          combiners{0};  // reduce: combiner graph start attempts so far
         std::map<std::pair<Int, int>, int> evals;   // (key, probe) -> evaluations so far
         std::map<std::pair<int, int>, int> started; // (instance, probe) -> completed start hooks
         std::map<std::pair<int, int>, int> stopped; // (instance, probe) -> stop hook calls
@@ -205,6 +211,70 @@ namespace
         }
     };
 
+    // ---- probes of a reduce combiner (no key: the instance is named by its ordinal) ----------------------
+    void rp_start(const NodeView &node, int I)
+    {
+        const int i    = instance_of(node.graph());
+        const int call = ++W.start_calls;
+        if (W.plan.start_calls.count(call))
+        {
+            W.ev("ps!", i, I);
+            throw std::runtime_error("probe-fault start " + W.name(i, I));
+        }
+        ++W.started[{i, I}];
+        W.ev("ps:", i, I);
+    }
+    void rp_stop(const NodeView &node, int I)
+    {
+        const int i = instance_of(node.graph());
+        ++W.stopped[{i, I}];
+        const auto key = i >= 0 ? W.inst[i].key : std::nullopt;
+        if (key && W.plan.stop.count({*key, I}))
+        {
+            W.ev("px!", i, I);
+            throw std::runtime_error("probe-fault stop " + W.name(i, I));
+        }
+        W.ev("px:", i, I);
+    }
+    void rp_eval(const NodeView &node, int I)
+    {
+        const int  i   = instance_of(node.graph());
+        const Int  key = i >= 0 && W.inst[i].key ? *W.inst[i].key : Int{-1};
+        const int  n   = ++W.evals[{key, I}];
+        const auto it  = W.plan.eval_n.find({key, I});
+        if (it != W.plan.eval_n.end() && it->second.count(n))
+        {
+            W.ev("pe!", i, I);
+            throw std::runtime_error("probe-fault evaluate " + W.name(i, I));
+        }
+        W.ev("pe:", i, I);
+    }
+
+    struct RProbe0
+    {
+        static constexpr auto name = "hgv_rprobe0";
+        static void start(NodeView node) { rp_start(node, 0); }
+        static void stop(NodeView node) { rp_stop(node, 0); }
+        static void eval(NodeView node, In<"lhs", TS<Int>> lhs, In<"rhs", TS<Int>> rhs, Out<TS<Int>> out)
+        {
+            rp_eval(node, 0);
+            out.set(lhs.value() + rhs.value());
+        }
+    };
+
+    template <int I>
+    struct RProbeU
+    {
+        static constexpr const char *name = I == 1 ? "hgv_rprobe1" : "hgv_rprobe2";
+        static void start(NodeView node) { rp_start(node, I); }
+        static void stop(NodeView node) { rp_stop(node, I); }
+        static void eval(NodeView node, In<"ts", TS<Int>> ts, Out<TS<Int>> out)
+        {
+            rp_eval(node, I);
+            out.set(ts.value());
+        }
+    };
+
     using P  = Port<TS<Int>>;
     using KP = NamedPort<"key", TS<Int>>;
 
@@ -223,6 +293,47 @@ namespace
 
     WiredFn probes_fn(int n) { return n == 1 ? fn<GProbes<1>>() : n == 2 ? fn<GProbes<2>>() : fn<GProbes<3>>(); }
 
+    template <int N>
+    struct GComb
+    {
+        static constexpr const char *name = N == 2 ? "hgv_dl_c2" : "hgv_dl_c3";
+        static P compose(Wiring &w, P lhs, P rhs)
+        {
+            P a = wire<RProbe0>(w, lhs, rhs);
+            a   = wire<RProbeU<1>>(w, a);
+            if constexpr (N >= 3) { a = wire<RProbeU<2>>(w, a); }
+            return a;
+        }
+    };
+
+    // n = 1: a NODE combiner, otherwise a sub-graph combiner
+    WiredFn combiner_fn(int n) { return n == 1 ? fn<RProbe0>() : n == 2 ? fn<GComb<2>>() : fn<GComb<3>>(); }
+
+    WiringArg ts_arg(WiringPortRef port)
+    {
+        WiringArg arg;
+        arg.kind = WiringArg::Kind::TimeSeries;
+        arg.port = std::move(port);
+        return arg;
+    }
+    WiringArg scalar_arg(Value value)
+    {
+        WiringArg arg;
+        arg.kind         = WiringArg::Kind::Scalar;
+        arg.scalar_value = std::move(value);
+        arg.scalar_meta  = arg.scalar_value.schema();
+        return arg;
+    }
+    OperatorWireResult call_operator(Wiring &w, std::string_view name, std::vector<WiringArg> args,
+                                     std::optional<bool> output_required = std::nullopt,
+                                     const TSValueTypeMetaData *expected_output = nullptr)
+    {
+        ResolvedOperatorCall resolved = OperatorRegistry::instance().resolve(
+            name, std::span<const WiringArg>{args.data(), args.size()}, output_required, expected_output, {},
+            w.operator_state(), &w);
+        return resolved.impl->wire(w, resolved.map, resolved.args, resolved.kwargs);
+    }
+
     // ---- observer ---------------------------------------------------------------------------------------
     struct Obs final : LifecycleObserver
     {
@@ -233,13 +344,15 @@ namespace
         {
             if (!g.valid() || g.is_root() || !g.is_nested()) { return false; }
             auto parent = g.as_nested().parent_node();
-            return parent.graph().is_root() && (parent.is<MapNodeView>() || parent.is<SwitchNodeView>());
+            return parent.graph().is_root() &&
+                   (parent.is<MapNodeView>() || parent.is<SwitchNodeView>() || parent.is<ReduceNodeView>());
         }
         static int probe_index(const NodeView &n)
         {
             const std::string l{n.label()};
-            if (l.rfind("hgv_probe", 0) != 0 || l.size() != 10) { return -1; }
-            return l[9] - '0';
+            if (l.rfind("hgv_probe", 0) == 0 && l.size() == 10) { return l[9] - '0'; }
+            if (l.rfind("hgv_rprobe", 0) == 0 && l.size() == 11) { return l[10] - '0'; }
+            return -1;
         }
 
         void on_before_start_graph(const GraphView &g) override
@@ -247,6 +360,12 @@ namespace
             if (!is_dyn_child(g)) { return; }
             W.inst.push_back(Inst{});
             W.inst_of[g.data()] = static_cast<int>(W.inst.size()) - 1;
+            if (g.as_nested().parent_node().is<ReduceNodeView>())
+            {
+                // a combiner has no key: it is named by the order of its start attempt
+                W.inst.back().key = Int{++W.combiners};
+                W.inst.back().gen = 1;
+            }
             W.ev("G<", instance_of(g));
         }
         void on_after_start_graph(const GraphView &g) override
@@ -298,6 +417,7 @@ namespace
     struct Cfg
     {
         bool is_switch{false};
+        bool is_reduce{false};
         int  nprobes{1};
         bool cleanup{true};
     };
@@ -333,8 +453,18 @@ namespace
         if (!cfg.is_switch)
         {
             auto a = wire<stdlib::replay_impl, IntDict>(w, Str{"hgv::a"});
-            auto m = wire<stdlib::map_>(w, probes_fn(cfg.nprobes), a).as<IntDict>();
-            wire<stdlib::dense_record_impl>(w, m, Str{"hgv::out"});
+            if (cfg.is_reduce)
+            {
+                std::vector<WiringArg> rargs{scalar_arg(Value{combiner_fn(cfg.nprobes)}), ts_arg(a.erased())};
+                auto red = call_operator(w, "reduce", std::move(rargs), true);
+                Port<TS<Int>> r{red.output.erased()};
+                wire<stdlib::dense_record_impl>(w, r, Str{"hgv::out"});
+            }
+            else
+            {
+                auto m = wire<stdlib::map_>(w, probes_fn(cfg.nprobes), a).as<IntDict>();
+                wire<stdlib::dense_record_impl>(w, m, Str{"hgv::out"});
+            }
             std::set<Int> present;
             Int           v = 0;
             for (const auto &ops : cycles)
@@ -475,9 +605,10 @@ int main()
             {
                 flush(false);
                 Cfg  c;
-                bool ok     = (w[1] == "map" || w[1] == "switch") && (w[2] == "1" || w[2] == "2" || w[2] == "3") &&
-                          (w[3] == "0" || w[3] == "1");
+                bool ok     = (w[1] == "map" || w[1] == "switch" || w[1] == "reduce") &&
+                          (w[2] == "1" || w[2] == "2" || w[2] == "3") && (w[3] == "0" || w[3] == "1");
                 c.is_switch = w[1] == "switch";
+                c.is_reduce = w[1] == "reduce";
                 c.nprobes   = ok ? static_cast<int>(to_i(w[2])) : 1;
                 c.cleanup   = w[3] == "1";
                 if (ok) { cfg = c; cfg_bad = false; std::cout << "ok\n"; }
